@@ -660,7 +660,8 @@ class C19(Check):
             'PreemptiveResource (capacity 1-3), users acting on distinct time phases; users may take 2-3 slots in one '
             'activation and re-request from their Interrupt handler after an eviction. Oracle: sequential reference model of '
             'the documented policies. non-trivial = a request had to wait, or was cancelled/preempted, or a filter matched '
-            'nothing; distinct by sha1.')
+            'nothing; distinct by sha1. Also: repeated cancels, explicit request()/release() users, and Containers with decimal '
+            'amounts (fill/drain aimed at the bounds) judged by invariants only.')
     budgets = {'quick': dict(examples=2400, procs=4), 'thorough': dict(examples=300000, procs=16)}
     level_text = ('Model-based history check: per request grant time and value, per-queue grant order, inspector observations '
                   '(level/items/users/queue lengths) between operations, Preempted details (by, usage_since, resource), '
